@@ -25,8 +25,11 @@ def build():
     return os.path.join(TARGET, "debug", "replayer")
 
 
-def _run(binary, args, timeout=300):
-    p = subprocess.run([binary] + args, stdout=subprocess.PIPE, stderr=subprocess.PIPE, text=True, timeout=timeout)
+def _run(binary, args, timeout=300, prop=None):
+    env = dict(os.environ)
+    if prop:
+        env["VERIF_PROP"] = prop
+    p = subprocess.run([binary] + args, stdout=subprocess.PIPE, stderr=subprocess.PIPE, text=True, timeout=timeout, env=env)
     return p
 
 
@@ -54,6 +57,28 @@ def search(pid, record):
                     "expected": "a frame, Incomplete or an error"}
         last = [l for l in p.stdout.splitlines() if l.startswith("{")]
         return json.loads(last[-1]) if last else {"found": False}
+    if pid == "C10":
+        f0 = _run(binary, ["frame-search"])
+        for line in f0.stdout.splitlines():
+            if line.startswith("{") and json.loads(line).get("found"):
+                w = json.loads(line)
+                w["scenario"] = "frame-one"
+                w["props"] = str(w.get("props", "")) + ",C10"
+                return w
+        d = _run(binary, ["frame-deep", "200000"])
+        if d.returncode != 0:
+            return {"found": True, "scenario": "frame-deep", "kind": "stack-exhaustion", "depth": 200000, "props": "C07,C10",
+                    "observed": "process terminated with status %d (%s)" % (d.returncode, d.stderr.strip()[-200:]), "expected": "a frame, Incomplete or an error"}
+        h = _run(binary, ["server-hostile"], timeout=300)
+        for line in h.stdout.splitlines():
+            if line.startswith("{") and json.loads(line).get("found"):
+                w = json.loads(line)
+                w["scenario"] = "server-hostile"
+                return w
+        if h.returncode != 0:
+            return {"found": True, "scenario": "server-hostile", "kind": "process-died", "props": "C10",
+                    "observed": "the server process exited with %d: %s" % (h.returncode, h.stderr[-400:]), "expected": "the server keeps running"}
+        return {"found": False}
     if pid == "C06":
         for seed in range(4):
             p = _run(binary, ["server-search", str(seed)], timeout=300)
@@ -100,7 +125,7 @@ def search(pid, record):
             return r
     if record.get("file", "").startswith("src/storage/"):
         seed = os.environ.get("VERIF_SEED", "0") or "0"
-        p = _run(binary, ["store-search", seed], timeout=600)
+        p = _run(binary, ["store-search", seed], timeout=600, prop=pid)
         last = None
         for line in p.stdout.splitlines():
             if line.startswith("{"):
@@ -148,6 +173,10 @@ def execute(w):
         import durability
         r = durability.search(binary)
         return (not r.get("found")), json.dumps(r)[:700]
+    if w.get("scenario") == "server-hostile":
+        p = _run(binary, ["server-hostile"], timeout=300)
+        found = p.returncode != 0 or any(l.startswith("{") and json.loads(l).get("found") for l in p.stdout.splitlines())
+        return (not found), p.stdout.strip()[-700:]
     if w.get("scenario") == "decimal-search":
         p = _run(binary, ["decimal-search", "200000"])
         found = p.returncode != 0 or any(l.startswith("{") and json.loads(l).get("found") for l in p.stdout.splitlines())
